@@ -43,7 +43,11 @@ def load_corpus(props=None):
             meta = os.path.join(root, name, 'meta.json')
             if not (os.path.exists(patch) and os.path.exists(meta)):
                 continue
-            prop = json.load(open(meta, encoding='utf-8'))['property']
+            m = json.load(open(meta, encoding='utf-8'))
+            prop = m['property']
+            if m.get('also_check'):
+                # the change breaks a clause that another property's check decides (recorded with the reason in meta.json)
+                prop = m['also_check'][0]
             if props and prop not in props:
                 continue
             out.append({'property': prop, 'id': f'{sub}/{name}', 'kind': kind, 'patch': patch})
